@@ -469,7 +469,7 @@ def explore(ctx):
     work += [('roman', n) for n in range(1, 4000)]
     work += [('complex', (rng.randint(-999, 999), rng.randint(-999, 999))) for _ in range(100)]
     hangs = 0
-    for item, vs in zip(work, pmap(_worker, work, limit=4.0)):
+    for item, vs in zip(work, pmap(_worker, work, limit=4.0, confirm=False)):
         if vs == HANG:
             vs = confirm_hang(_worker, item)
         if vs == HANG:
@@ -515,7 +515,7 @@ def search(ctx, proof, res):
         work.append(('hex', rng.randint(-2 ** 40, 2 ** 40)))
         work.append(('base', (rng.randint(0, 2 ** 39), rng.randint(-2, 40))))
     work += [('roman', n) for n in range(1, 4000)]
-    for item, vs in zip(work, pmap(_worker, work, limit=4.0)):
+    for item, vs in zip(work, pmap(_worker, work, limit=4.0, confirm=False)):
         if vs == HANG:
             vs = confirm_hang(_worker, item)
         if vs == HANG:
